@@ -25,7 +25,7 @@ VARIABLES st, l
 tvars == <<st, l>>
 
 NoCur == [ty |-> 0, val |-> NullV, pk |-> <<>>, canonical |-> FALSE, etype |-> "rec", allc |-> TRUE, isref |-> FALSE,
-          cmp |-> FALSE, perm |-> FALSE, deep |-> FALSE, src |-> ""]
+          cmp |-> FALSE, perm |-> FALSE, extra |-> FALSE, deep |-> FALSE, src |-> ""]
 NoDone == [has |-> FALSE, ok |-> FALSE, val |-> UnitRV, reps |-> <<>>]
 
 InitSt == [stack |-> <<>>, cur |-> NoCur, made |-> {}, reps |-> <<>>, phase |-> "none", runbad |-> TRUE,
@@ -53,7 +53,8 @@ StartRun(s, e) ==
     LET isref == e.e = "reset"
         cur == [ty |-> e.ty, val |-> e.val, pk |-> e.pk, canonical |-> FALSE, etype |-> e.etype,
                 allc |-> (e.dflt = "c" /\ AllOnes(e.script) /\ e.etype = "rec"), isref |-> isref,
-                cmp |-> (~isref /\ e.etype = "rec" /\ ~e.inp.perm /\ ~e.deep), perm |-> (~isref /\ e.inp.perm /\ e.etype = "rec"),
+                cmp |-> (~isref /\ e.etype = "rec" /\ ~e.inp.perm /\ ~e.inp.extra /\ ~e.deep), perm |-> (~isref /\ e.inp.perm /\ e.etype = "rec"),
+                extra |-> (~isref /\ e.inp.extra /\ e.etype = "rec"),
                 deep |-> e.deep, src |-> e.src]
     IN [s EXCEPT !.stack = <<>>, !.cur = cur, !.made = {}, !.reps = <<>>, !.fnf = {}, !.idp = <<>>, !.phase = "idle", !.runbad = FALSE,
                  !.refev = IF isref THEN <<>> ELSE @, !.pos = 0, !.diverged = FALSE,
@@ -340,6 +341,11 @@ GroupDone(s, e) ==
          (IF e.ok = s.refdone.ok /\ (e.ok => e.val = s.refdone.val) /\ (s.cur.allc => SameBag(NoAct(s.reps), NoAct(s.refdone.reps)))
           THEN Seen([s EXCEPT !.nperm = @ + 1], {"C15"})
           ELSE Flag(s, {"C15"}, "permuting object members changes the value or the set of reports"))
+    ELSE IF s.cur.extra /\ s.refdone.has THEN
+         \* C09: without deny_unknown_fields, unknown keys have no influence whatsoever
+         (IF e.ok = s.refdone.ok /\ (e.ok => e.val = s.refdone.val) /\ SameBag(NoAct(s.reps), NoAct(s.refdone.reps))
+          THEN Seen([s EXCEPT !.nperm = @ + 1], {"C09"})
+          ELSE Flag(s, {"C09"}, "adding unknown keys changes the value or the reports although deny_unknown_fields is absent"))
     ELSE s
 
 \* C14: the two built-in renderings of a report (logged for every report of a reference run over serde_json)
